@@ -95,6 +95,16 @@ class Ctx:
         self.obs.append(o)
         return bool(ok)
 
+    def guard(self, fn, *a, **k):
+        """Run one rule; if it cannot be evaluated (AnalysisError) the other rules of the property are still run: a violation they find is
+        reported, and the rule that could not be evaluated leaves an undecided obligation (exit 2 unless something else is violated)."""
+        try:
+            return fn(*a, **k)
+        except AnalysisError as e:
+            self.ob(f"{self.prop}.analysis", getattr(fn, "__name__", "rule"), "the rule can be evaluated on this code", False,
+                    f"{str(e)[:300]} (analysable form not found)", None, evidence=False)
+            return None
+
     def rule(self, rule, text):
         """Declare a rule and the text of what it decides (goes into evidence)."""
         self.rule_text[rule] = text
